@@ -15,10 +15,12 @@ prop("C02", "Includes always see the complete, fresh output of their dependencie
               "of add_dependency for that same file; is_first_pass is always a literal",
               "R02.2 while collecting dependencies a directive is executed only outside CollectDeps; a dependency with a .txtpp source never "
               "leads to execution in the first pass and is recorded via share_base(get_txtpp_file(..))",
-              "R02.3 command execution, include reads, temp writes and tag creation happen only on the Some edge of the collect-deps gate",
+              "R02.3 command execution, include reads, temp writes and tag creation all exist in execute_directive and (outside Clean) none of them "
+              "is reachable in PpMode::CollectDeps",
               "R02.4 writes in the line loop happen only under PpMode::is_execute()",
               "R02.5 PpResult::Ok is built only after IOCtx::done() succeeded; each worker sends exactly the value returned by preprocess/scan_dir",
-              "R02.6 worker closures capture only {Sender<TaskResult>, Arc<Shell>, AbsPath, Mode, bool}; Shell has no interior mutability"],
+              "R02.6 worker closures capture only {Sender<TaskResult>, Arc<Shell>, AbsPath, Mode, bool, fieldless crate enums}; Shell has no "
+              "interior mutability"],
      not_decided=["equality with the sequential build over all DAGs x completion orders", "correctness of DepManager's counting (value-level)",
                   "stale-file freshness as a runtime fact"])
 
@@ -187,20 +189,33 @@ def _go_execute_sites(b):
     return sorted(set(out))
 
 
+EFFECT_ROLES = ("shell_run", "execute_directive_temp", "tag_create")
+
+
+def directive_effects(ctx, b):
+    """[(bb, term)] the calls in execute_directive's normal form that EXECUTE a directive: running the command, reading the include,
+    writing / removing the temp file, creating the tag"""
+    names = tuple(ROLE[r] for r in EFFECT_ROLES) + ("std::fs::read_to_string", "std::fs::read", "std::fs::File::open")
+    return [(bb, t) for bb, t in b.calls() if C.callee_name(t) in names]
+
+
 @rule("C02", "R02.2", floor=3)
 def r02_2(ctx):
+    """(the collect-deps gate is spliced into execute_directive: DESIGN §3.9) no directive effect is reachable while the pass is already
+    collecting dependencies, nor after a dependency with a .txtpp source was found in this pass; the found dependency is recorded"""
     lib = ctx.lib
-    b = body(ctx, "execute_in_collect_deps_mode")
+    b = body(ctx, "execute_directive")
     if not b:
         return
     mo = M.Modes(lib, mode_adts=(ADT["PpMode"],), all_modes=PPMODES)
-    somes = _go_execute_sites(b)
+    non_clean = C.explore(b, cut={eid for eid, vs in modes(ctx).mode_edges(b).items() if vs == {"Clean"}})[0]
+    somes = [bb for bb, t in directive_effects(ctx, b) if bb in non_clean]        # (what clean does with a directive is C07's)
     if not somes:
-        ctx.anchor_missing("Ok(Some(directive)) return in the collect-deps gate")
+        ctx.anchor_missing("directive effects (run / include / temp / tag) in execute_directive")
     for bb in somes:
         m = mo.local_modes(b, bb)
         if "CollectDeps" in m:
-            ctx.violation(["execute-while-collecting"], "the collect-deps gate lets a directive execute while already collecting dependencies "
+            ctx.violation(["execute-while-collecting"], "a directive can be executed while the pass is already collecting dependencies "
                           "(a command after a dependency line would run before the dependency is built)", site=ctx.site(b, bb))
         else:
             ctx.ok("go-execute only in %s" % sorted(m), site=ctx.site(b, bb))
@@ -249,29 +264,25 @@ def r02_2(ctx):
 
 @rule("C02", "R02.3", floor=4)
 def r02_3(ctx):
+    """the four directive effects (command, include read, temp file, tag) exist in execute_directive, and outside Clean each of them is
+    unreachable in PpMode::CollectDeps (= the first clause of R02.2, per effect)"""
     lib = ctx.lib
     b = body(ctx, "execute_directive")
     if not b:
         return
-    gate = enum_edges(b, lib, "std::option::Option", lambda vs: vs == {"Some"},
-                      src_pred=lambda c: has_call(C.trace(b, c.place, through_decorators=True), ROLE["execute_in_collect_deps_mode"]))
-    if not gate:
-        ctx.anchor_missing("match on the result of the collect-deps gate in execute_directive")
-        return
-    effects = [ROLE["shell_run"], "std::fs::read_to_string", "std::fs::read", ROLE["execute_directive_temp"], ROLE["tag_create"],
-               "std::fs::File::open"]
-    clean_e = enum_edges(b, lib, ADT["Mode"], lambda vs: vs == {"Clean"})
+    mo = M.Modes(lib, mode_adts=(ADT["PpMode"],), all_modes=PPMODES)
+    non_clean = C.explore(b, cut={eid for eid, vs in modes(ctx).mode_edges(b).items() if vs == {"Clean"}})[0]
     n = 0
-    for bb, t in b.calls():
+    for bb, t in directive_effects(ctx, b):
         nm = C.callee_name(t)
-        if nm not in effects:
-            continue
+        if bb not in non_clean:
+            continue        # a clean-only site (the temp cleaner): C07
         n += 1
-        if C.guarded(b, bb, gate | clean_e):
+        if "CollectDeps" not in mo.local_modes(b, bb):
             ctx.ok("%s behind the collect-deps gate" % nm.rsplit("::", 1)[-1], site=ctx.site(b, bb))
         else:
-            ctx.violation([nm], "%s is reachable without passing the collect-deps gate (it would execute in a dependency-collecting pass)" % nm,
-                          site=ctx.site(b, bb), witness=C.witness(b, bb, gate))
+            ctx.violation([nm], "%s is reachable while the pass is collecting dependencies (it would execute before the dependencies are built)" % nm,
+                          site=ctx.site(b, bb))
     if n < 4:
         ctx.anchor_missing("the four directive effects (run, include read, temp, tag) in execute_directive")
 
@@ -334,7 +345,9 @@ def r02_6(ctx):
     for sb, sbb, t, cl in spawner_bodies(ctx):
         if cl is None:
             continue
-        bad = [u["ty"] for u in cl.upvars if u["ty"] not in allowed]
+        # plain data: a fieldless enum of the crate (a `Pass::{First, Rerun}` in place of a bool) carries no shared state
+        plain = {p_ for p_, a in ctx.lib.adts.items() if a.get("kind") == "Enum" and all(not v["fields"] for v in a["variants"])}
+        bad = [u["ty"] for u in cl.upvars if u["ty"] not in allowed and u["ty"] not in plain]
         if bad:
             ctx.violation([cl.name, "upvars", ",".join(bad)], "a worker task captures %s: coordinator state or shared mutable data must not "
                           "reach worker threads" % bad, site=ctx.site(sb, sbb))
@@ -532,20 +545,20 @@ def r03_5(ctx):
 @rule("C03", "R03.6", floor=4)
 def r03_6(ctx):
     lib = ctx.lib
-    allowed = {ROLE["create_base"], ROLE["share_base"], ROLE["abspath_new"], ROLE["abspath_clone"]}
+    # wherever an AbsPath is built (create_base / share_base, or a private borrowing twin of them spliced into a caller), its path is
+    # what make_abs returned; only AbsPath::new (unit tests) and the derived Clone build one from something else
+    exempt = {ROLE["abspath_new"], ROLE["abspath_clone"]}
     for b in lib.bodies.values():
         for bb, st in aggregates(b, ADT["AbsPath"]):
-            if b.name not in allowed:
-                ctx.violation([b.name, "abspath-literal"], "AbsPath is constructed outside create_base/share_base/new: the path may not be canonical "
-                              "(the same file could get two identities)", site=ctx.site(b, bb))
+            if b.name in exempt:
                 continue
-            if b.name in (ROLE["create_base"], ROLE["share_base"]):
-                flds = st["rv"]["agg"]["fields"]
-                lv = C.trace(b, st["rv"]["ops"][flds.index("p")], through_decorators=True)
-                if lv and all(leaf_is_call(l, ROLE["make_abs"]) for l in lv):
-                    ctx.ok("AbsPath.p <- make_abs|%s" % b.name.rsplit("::", 1)[-1], site=ctx.site(b, bb))
-                else:
-                    ctx.violation([b.name, "p-origin"], "AbsPath.p does not come from make_abs (canonicalisation skipped on some path)", site=ctx.site(b, bb))
+            flds = st["rv"]["agg"]["fields"]
+            lv = C.trace(b, st["rv"]["ops"][flds.index("p")], through_decorators=True) if "p" in flds else []
+            if lv and all(leaf_is_call(l, ROLE["make_abs"]) for l in lv):
+                ctx.ok("AbsPath.p <- make_abs|%s" % b.name.rsplit("::", 1)[-1], site=ctx.site(b, bb))
+            else:
+                ctx.violation([b.name, "abspath-literal"], "an AbsPath is built whose path does not come from make_abs: it may not be canonical "
+                              "(the same file could get two identities)", site=ctx.site(b, bb))
     ma = body(ctx, "make_abs")
     if ma:
         # every success value make_abs can return is what canonicalize() returned (Path::canonicalize and fs::canonicalize are the
@@ -882,7 +895,7 @@ def r05_4(ctx):
     """cycles are never reported by a worker: a dependency found while collecting is recorded, not turned into an error —
     a worker error aborts the coordinator loop at once, so the acyclic rest of the project would be left unbuilt"""
     lib = ctx.lib
-    b = body(ctx, "execute_in_collect_deps_mode")
+    b = body(ctx, "execute_directive")
     if not b:
         return
     some_e = enum_edges(b, lib, "std::option::Option", lambda vs: vs == {"Some"}, src_pred=lambda c: has_call(c.src, ROLE["get_txtpp_file"]))
@@ -992,7 +1005,7 @@ def r02_10(ctx):
     PpMode::Execute early return and the get_txtpp_file() call cut, no return is reachable for DirectiveType::Include or ::After
     (a shortcut for 'already collecting' that skips `after` loses an ordering edge: the file is then built from stale or missing data)"""
     lib = ctx.lib
-    b = body(ctx, "execute_in_collect_deps_mode")
+    b = body(ctx, "execute_directive")
     if not b:
         return
     gets = [bb for bb, t in calls_to(b, ROLE["get_txtpp_file"])]
@@ -1004,7 +1017,8 @@ def r02_10(ctx):
     me = mo.mode_edges(b)
     rets = ok_sites(b)
     for v in ("Include", "After"):
-        cut = {eid for eid, vs in me.items() if v not in vs} | out_edges(b, gets) | set(exec_e)
+        cut = {eid for eid, vs in me.items() if v not in vs} | out_edges(b, gets) | set(exec_e) | \
+            enum_edges(b, lib, ADT["Mode"], lambda vs: vs == {"Clean"})
         bad = [bb for bb in rets if not C.guarded(b, bb, cut)]
         if bad:
             ctx.violation([b.name, "dependency-lookup-skipped", v], "a `%s` directive can pass the collect-deps gate without its target being looked up "
@@ -1031,13 +1045,15 @@ def r02_11(ctx):
         for l in lv:
             if l.kind == "field" and has_field([l], "args"):
                 continue
-            if l.kind == "param" or leaf_is_call(l, ROLE["execute_in_collect_deps_mode"]):
-                continue        # the Directive value itself (parameter / handed back by the gate)
+            if l.kind == "param":
+                continue        # the Directive value itself
             if l.kind == "const" and C.op_const(l.data) in ('""', "0_usize"):
                 continue        # unwrap_or_default / map_or("", ..)
+            if l.kind == "call" and C.callee_name(l.data) in ("std::string::String::new", "<std::string::String as std::default::Default>::default"):
+                continue        # .. spelled as a call: the empty name of a directive without arguments
             return False, lv
         return True, lv
-    gate = body(ctx, "execute_in_collect_deps_mode")
+    gate = body(ctx, "execute_directive")
     if gate:
         gs = calls_to(gate, ROLE["get_txtpp_file"])
         if not gs:
